@@ -161,10 +161,9 @@ def out : Val → Str
   | .bool b => if b then ['1'] else ['0']
   | .opq _ _ _ c => c
 
-/-- Python `str(v)` (what the serializer writes for allowed values, bounds and defaults) -/
-def pyStr : Val → Str
-  | .bool b => if b then "True".toList else "False".toList
-  | v => out v
+/-- what the serializer writes for allowed values, bounds and defaults: the type's `out` coercer
+    (`state_variable.coerce_upnp`; before the F14g repair it was Python's `str()`) -/
+def pyStr (v : Val) : Str := out v
 
 /-- the schema's type validator plus `require_tzinfo` (values are of exactly the mapped type:
     `bool` for an `int` type and `datetime` for `date` are outside the modelled domain) -/
@@ -276,8 +275,16 @@ def inRange (lo hi : Option Val) (v : Val) : Bool :=
   (match lo with | some l => (match keyOf l, keyOf v with | some a, some b => a ≤ b | _, _ => false) | none => true)
   && (match hi with | some h => (match keyOf v, keyOf h with | some a, some b => a ≤ b | _, _ => false) | none => true)
 
+/-- a `bool` passed where the mapped Python type is `int` *is* an int for the schema
+    (`isinstance(True, int)`, `True == 1`) and for the `out` coercer `str(int(i))` -/
+def normTy (f : Option Gen.C14.Fam) (v : Val) : Val :=
+  match f, v with
+  | some .int, .bool b => .int (if b then 1 else 0)
+  | _, v => v
+
 /-- `validate_value`: the voluptuous schema accepts `v` -/
-def schemaOk (fs : Facts) (vd : VarDef) (v : Val) : Bool :=
+def schemaOk (fs : Facts) (vd : VarDef) (v0 : Val) : Bool :=
+  let v := normTy (famOf vd.dtype) v0
   (match famOf vd.dtype with | some f => validTy f v | none => false)
   && (let al := allowedVals fs vd; al.isEmpty || al.any (fun a => eqPy a v))
   && inRange (schemaBound fs vd.dtype vd.min) (schemaBound fs vd.dtype vd.max) v
@@ -531,13 +538,19 @@ def faultDoc (code : Nat) : Xml :=
          [leaf (ctlq "errorCode") (decOfNat code),
           leaf (ctlq "errorDescription") "Action Failed".toList]]]]
 
-/-- `_create_action_response`: `none` = KeyError / UpnpValueError escapes (handler broke its contract) -/
-def responseKids (fs : Facts) (act : SAct) : List (Str × Val) → Option (List Xml)
-  | [] => some []
+/-- `_create_action_response`: `error` = the exception that escapes when the handler broke its
+    contract (`KeyError`: not an out-argument; `UpnpValueError`: the value fails the variable's
+    schema — wrong type, `None`, out of range; raised outside `action_handler`'s try block) -/
+def responseKids (fs : Facts) (act : SAct) : List (Str × Val) → Except String (List Xml)
+  | [] => .ok []
   | (k, v) :: r =>
-    match act.outs.find? (fun a => a.name = k), responseKids fs act r with
-    | some a, some ks => if schemaOk fs a.var v then some (leaf (plain k) (out v) :: ks) else none
-    | _, _ => none
+    match act.outs.find? (fun a => a.name = k) with
+    | none => .error "KeyError"
+    | some a =>
+      if !schemaOk fs a.var v then .error "UpnpValueError" else
+      match responseKids fs act r with
+      | .ok ks => .ok (leaf (plain k) (out v) :: ks)
+      | .error e => .error e
 
 def responseTag (stype : Str) (act : Str) : QName := ⟨stype, act ++ "Response".toList⟩
 
@@ -560,8 +573,8 @@ def serverHandle (fs : Facts) (stype : Str) (acts : List SAct) (h : Handler) (r 
       | .err code => .resp 500 (faultDoc (match code with | some c => if c = 0 then 501 else c | none => 501))
       | .ret vals =>
         match responseKids fs act vals with
-        | some ks => .resp 200 (envelope [.node (responseTag stype act.name) [] none ks])
-        | none => .unhandled "handler-contract".toList
+        | .ok ks => .resp 200 (envelope [.node (responseTag stype act.name) [] none ks])
+        | .error e => .unhandled e.toList
 
 /-- the keyword arguments with which `action_handler` calls the action's handler (`none` = the
     handler is not reached) -/
